@@ -60,15 +60,24 @@ pub fn gen(rng: &mut Rng, idx: usize, n: usize, thorough: bool) -> String {
     };
     // query variables: empty, all, or a random selection in random order (may be ignored by the function)
     let maxq = if thorough { 5 } else { 4 };
-    let k = match rng.below(10) {
-        0 => 0,
-        1 => total.min(maxq + 1),
-        _ => rng.range(1, total.min(maxq)),
+    // half of the cases are shaped for MEU: few decisions, early in the order, in the support
+    let meu_shaped = rng.chance(1, 2);
+    let k = if meu_shaped {
+        rng.range(1, total.min(2))
+    } else {
+        match rng.below(10) {
+            0 => 0,
+            1 => total.min(maxq + 1),
+            _ => rng.range(1, total.min(maxq)),
+        }
     };
     let mut q = rng.perm(total);
-    if rng.chance(2, 3) {
+    match if meu_shaped { 3 } else { rng.below(4) } {
         // prefer variables the function depends on
-        q.sort_by_key(|v| !supports[target].contains(v));
+        1 => q.sort_by_key(|v| !supports[target].contains(v)),
+        // ... and among them those early in the order (so that chance / reward variables follow)
+        2 | 3 => q.sort_by_key(|v| (!supports[target].contains(v), level_of(&prog, *v))),
+        _ => {}
     }
     q.truncate(k);
     rng.shuffle(&mut q);
@@ -105,8 +114,8 @@ pub fn gen(rng: &mut Rng, idx: usize, n: usize, thorough: bool) -> String {
                 s.push_str(" 8 0 8 0");
             }
         } else if last_dec.map_or(true, |l| level_of(&prog, v) > l) {
-            match rng.below(6) {
-                0 | 1 | 2 => s.push_str(&format!(" 8 0 8 {}", rng.below(6))),
+            match if supports[target].contains(&v) && rng.chance(1, 2) { 0 } else { rng.below(6) } {
+                0 | 1 | 2 => s.push_str(&format!(" 8 0 8 {}", 1 + rng.below(5))),
                 3 => { let h = w8(rng); s.push_str(&format!(" {} 0 {h} 0", 8 - h)) }
                 4 => { let h = w8(rng); s.push_str(&format!(" {} {} {h} {}", 8 - h, rng.below(3), rng.below(4))) }
                 _ => s.push_str(&format!(" {} {} {} {}", w8(rng), rng.below(3), w8(rng), rng.below(4))),
@@ -339,6 +348,18 @@ pub fn run(case: &str, st: &mut Stats) -> Outcome {
             }
         }
     }
+    let real_opt = qasg.iter().filter(|pi| real_obj(**pi) == real_best).count();
+    if real_best == 0 { st.bump("real_optimum_is_zero"); }
+    if real_opt > 1 && real_best > 0 { st.bump("real_several_optimal_assignments"); }
+    if D::of_f64(meu_v.1).n > 0 { st.bump("meu_utility_positive"); }
+    {
+        let best_u = qasg.iter().map(|pi| eu_obj(*pi, false).1).fold(D::int(0), |m, x| if x.cmp(m) == std::cmp::Ordering::Greater { x } else { m });
+        let cnt = qasg.iter().filter(|pi| eu_obj(**pi, false).1.eq(best_u)).count();
+        if cnt > 1 && best_u.n > 0 { st.bump("meu_several_optimal_assignments"); }
+        let worst_differs = qasg.iter().any(|pi| !eu_obj(*pi, false).1.eq(best_u));
+        if worst_differs { st.bump("meu_assignments_differ_in_utility"); }
+    }
+    if qasg.iter().any(|pi| real_obj(*pi) != real_best) { st.bump("real_assignments_differ_in_value"); }
     st.bump(&format!("query_vars={k}"));
     st.bump(&format!("total_vars={total}"));
     st.bump(if neg { "complemented_root" } else { "regular_root" });
